@@ -94,7 +94,7 @@ def run_job(job, ctx):
             expr = r.choice(SPELL) % (r.choice(OPS), n)
             blocks.append(vbatch.BBlock([("line-count", expr)], lines))
         eol = "\r\n" if job["i"] % 3 == 0 else "\n"
-        for c in vbatch.run_batch(ctx, blocks, r.choice(["hash", "c"]), "line-count", model, eol=eol, sig_prefix="C09",
+        for c in vbatch.run_batch(ctx, blocks, r.choice(["hash", "c"]), "line-count", model, eol=eol, bom=(job["i"] % 3 == 1), sig_prefix="C09",
                                   nontrivial_fn=_nontrivial, sets_fn=_sets):
             acc.add(c)
     elif job["k"] == "diff-glob":
